@@ -14,7 +14,7 @@ TOL = 1e-8
 
 def generate(ctx):
     rng = ctx.rng
-    for _ in range(ctx.n(700, 10000)):
+    for _ in range(ctx.n(2000, 10000)):
         cls = rng.choice(["generic-tree", "generic-tree", "generic-cyclic", "collinear-chain", "axis-chain",
                           "tilted-axis-chain", "partly-collinear", "nearly-collinear", "nearly-collinear",
                           "two-atom", "two-atom", "one-atom"])
